@@ -147,8 +147,42 @@ func VerifH_C19_rollback() {
 	}
 	target := vpRange("target", 0, bt)
 	ev0 := len(e.events)
+	// one store call of the rollback may fail (I/O error): the k-th rollback
+	// of the block-header store or of the filter-header store
+	faulty := 0
+	if vpParam("rollbackfaults", 1) == 1 {
+		faulty = vpRange("storeFailingDuringTheRollback", 0, 2) // 0 none, 1 block headers, 2 filter headers
+	}
+	switch faulty {
+	case 1:
+		e.bs.ctl.rbFailAt = vpRange("failingRollbackCall", 1, 2)
+	case 2:
+		e.fs.ctl.rbFailAt = vpRange("failingRollbackCall", 1, 2)
+	}
 	err := e.bm.rollBackToHeight(uint32(target))
 	vpQuiesce()
+	e.bs.ctl.rbFailAt, e.fs.ctl.rbFailAt = 0, 0
+	if faulty != 0 && err != nil {
+		// the rollback stopped half-way: every block header that was removed
+		// before the failure has been announced, highest first, and nothing else
+		vpReach("rollback-interrupted-by-a-store-error")
+		removed := bt - (len(e.bs.hdrs) - 1)
+		if removed > 0 {
+			vpReach("headers-removed-before-the-store-error")
+		}
+		vpAssert(len(e.events)-ev0 == removed, "interrupted:one-disconnected-event-per-removed-header")
+		for i := ev0; i < len(e.events); i++ {
+			d, ok := e.events[i].ntfn.(*blockntfns.Disconnected)
+			vpAssert(ok, "interrupted:event-is-disconnected")
+			if !ok {
+				continue
+			}
+			h := bt - (i - ev0)
+			vpAssert(int(d.Height()) == h && d.Header() == e.chain[h], "interrupted:disconnected-highest-first-with-the-removed-header")
+		}
+		vpAssert(!e.ftAboveBt && len(e.fs.hashes) <= len(e.bs.hdrs), "interrupted:filter-chain-not-ahead-of-block-chain")
+		return
+	}
 	vpAssert(err == nil, "rollback-succeeds")
 	if err != nil {
 		return
